@@ -321,6 +321,10 @@ def generate(seed, tier="quick"):
             bare = [(rnd.choice(["MUSS", "SOLL", "KANN", "X"]), None)]
             other["op"] = {"op": "ahb_eval", "parts": bare, "expr": render_ahb(bare, rnd), "resolve": True, "text": None}
             other["start"] = rnd.choice([0, 1, 5, 50, 1000])
+    if n_requests >= 2 and rnd.random() < 0.12:
+        # the later requests are served by a new event loop of the same process
+        for request in requests[rnd.randrange(1, n_requests):]:
+            request["phase"] = 1
     if n_requests >= 2 and rnd.random() < 0.3:
         victim = requests[rnd.randrange(1, n_requests)]
         if rnd.random() < 0.5:
@@ -484,6 +488,10 @@ def shrink(scenario):
         if request.get("start"):
             candidate = clone(scenario)
             candidate["requests"][index]["start"] = 0
+            yield candidate
+        if request.get("phase"):
+            candidate = clone(scenario)
+            del candidate["requests"][index]["phase"]
             yield candidate
     for index, request in enumerate(requests):
         op = request["op"]
